@@ -4,6 +4,7 @@ import Pyunicorn.Model.Coupling2
 import Pyunicorn.Model.CouplingKnn
 import Pyunicorn.Model.Coupling3
 import Pyunicorn.Model.Coupling4
+import Pyunicorn.Model.Coupling5
 import Pyunicorn.Generated.StructC10
 /-! Line-protocol driver for C10: one request per line on stdin, one answer per line. -/
 open Pyunicorn Pyunicorn.Proto Pyunicorn.Coupling
@@ -131,7 +132,11 @@ def answer (toks : List String) : String :=
       let Ga := Gl.toArray
       let G : Nat → Nat → Rat := fun a b => (Ga.getD a #[]).getD b 0
       match gjInverse G N with
-      | none => "singular"
+      | none =>
+        -- round 5: the failing column and the kernel vector read off the augmented matrix
+        match gjKernel G N with
+        | some (c, w) => "singular|" ++ toString c ++ "|" ++ showRats w
+        | none => "singular|none|-"
       | some P =>
         let cells := (rng N).flatMap fun i => (rng N).map fun j => (i, j)
         let others := othersOf N
@@ -199,6 +204,14 @@ def answer (toks : List String) : String :=
       let x : Nat → Nat → Rat := fun i k => d (i * T + k)
       let cells := (rng N).flatMap fun i => (rng N).flatMap fun j => (rng (tm + 1)).map fun tau => (i, j, tau)
       showRats (cells.map fun c => itSqFn x T tm past mit c.1 c.2.1 c.2.2)
+  | ["gjker", n, flat] =>
+      let N := n.toNat!
+      let f := ratFn (rats flat)
+      let C : Nat → Nat → Rat := fun a b => if a < N ∧ b < N then f (a * N + b) else 0
+      match gjKernel C N, gjInverse C N with
+      | some (c, w), none => "singular|" ++ toString c ++ "|" ++ showRats w
+      | none, some P => "regular|" ++ showRats ((rng N).flatMap fun i => (rng N).map fun j => P i j)
+      | _, _ => "inconsistent"
   | _ => "bad-request"
 
 def main : IO Unit := runDriver answer
